@@ -9,6 +9,15 @@ COMMON_NOTE = ("Trusted base: CPython 3.12, numpy/scipy, icontract (or vlib.atta
                "(independent of molgri, see DESIGN.md section 3.2/5). Decides only the executions produced; nothing is 'verified'.")
 
 CHECKS = {
+    "C14": dict(
+        technique="end-to-end pipeline monitor: literal workflow rule bodies executed under stage monitors (C20, C01, C02, C09) plus pipeline postconditions (detailed balance, pattern, dense-solver agreement of DecompositionTool.get_decomposition)",
+        text="The literal run: bodies of rules run_grid, run_sqra and run_decomposition are extracted from the workflow files and executed with stub "
+             "namespaces (or the same library calls directly), every stage under its own monitors; on the LOADED arrays the harness checks "
+             "detailed balance w.r.t. V_i exp(-E_i/RT) in grid order (1e-9 relative), off-diagonal pattern = saved adjacency, files = getters of "
+             "that name; a postcondition on DecompositionTool.get_decomposition requires real, descending eigenvalues that each match a dense "
+             "numpy eigenvalue, and for settings targeting the top of the spectrum a zero largest eigenvalue with left eigenvector proportional to "
+             "V exp(-E/RT) (judged when the spectral gap is resolved at the solver tolerance).",
+        design_ref="5/C14"),
     "C10": dict(
         technique="runtime monitors (postconditions with reference snapshots on Pseudotrajectory.__init__/get_pt_as_universe, PtWriter.__init__/write_full_pt) against an own quaternion->matrix and rigid-placement formula",
         text="Every frame of every pseudotrajectory the workload produces is compared with R(q_k)(x_ref - com) + com + p_k (own scalar-last quaternion "
